@@ -465,7 +465,11 @@ func (ex *Exec) invoke(fr *Frame, st *State, cc *ssa.CallCommon, args []Val, res
 			keys = append(keys, k...)
 			top = top || t
 		}
-		ex.note("interface call %s: %d implementations, effects over-approximated", full, len(mod))
+		var names []string
+		for _, f := range impls {
+			names = append(names, funcKey(f))
+		}
+		ex.note("interface call %s: %d implementations (%s), effects over-approximated", full, len(mod), strings.Join(names, ", "))
 		if top {
 			ex.havocAll(st, "interface call "+full)
 		} else {
